@@ -265,6 +265,23 @@ Proof.
   intro H. specialize (H false false true eq_refl). destruct H as [H _]. discriminate H.
 Qed.
 
+(* ================= host / port override, truthy, defaults ================= *)
+Lemma hostport_table : forall hm pm, hostport_override hm pm = hostport_spec hm pm.
+Proof. intros [] []; reflexivity. Qed.
+
+Lemma truthy_match : truthy = spec_truthy.
+Proof. reflexivity. Qed.
+
+(* documented in docs/arguments.rst and runner.HELP alike: 0.0.0.0, 8080, both families enabled *)
+Lemma defaults_match :
+  default_host = [48;46;48;46;48;46;48] /\ default_port = 8080 /\ default_ipv4 = true /\ default_ipv6 = true
+  /\ defaults_proxy_and_sockets_empty = true /\ assign_loop_standard = true.
+Proof. repeat split; reflexivity. Qed.
+
+(* asbool on strings: membership of the stripped, lower-cased text in the six words *)
+Lemma asbool_spelling : forall s, asbool (VStr s) = Ok (memstr (lower_latin1 (strip_by is_str_ws s)) spec_truthy).
+Proof. intro s. unfold asbool, py_str. rewrite truthy_match. reflexivity. Qed.
+
 (* ================= middleware switch (server.py) ================= *)
 Lemma middleware_table : forall tp clear, middleware_installed tp clear = tp || clear.
 Proof. intros [] []; reflexivity. Qed.
